@@ -81,7 +81,6 @@ func (h264dp *h264Depacketizer) Depacketize(packet *Packet) (err error) {
 
 func (h264dp *h264Depacketizer) depacketizeStapa(packet *Packet) (err error) {
 	payload := packet.Payload()
-	header := payload[0]
 
 	// 	0                   1                   2                   3
 	// 	0 1 2 3 4 5 6 7 8 9 0 1 2 3 4 5 6 7 8 9 0 1 2 3 4 5 6 7 8 9 0 1
@@ -119,7 +118,6 @@ func (h264dp *h264Depacketizer) depacketizeStapa(packet *Packet) (err error) {
 			Payload:   make([]byte, nalSize),
 		}
 		copy(frame.Payload, payload[off:])
-		frame.Payload[0] = 0 | (header & 0x60) | (frame.Payload[0] & 0x1F)
 		if err = h264dp.writeFrame(packet.Timestamp, frame); err != nil {
 			return
 		}
